@@ -544,6 +544,24 @@ def step (st : St) (line : String) : St × String :=
       | (some (score, mv), s) => ({ st with eng := { st.eng with search := s } }, both s!"{score} {optMvText mv} nodes={s.nodes} rep={s.rep.length}" "?")
       | (none, s) => ({ st with eng := { st.eng with search := s } }, both "?" "?")
     | none => (st, modelOnly "bad-op")
+  | ["eng.golim", d, lim] =>
+    -- a search on the engine's own searcher (game history in place) cut off by a deadline: model tie incl. the history record
+    match d.toNat?, parseLimit lim with
+    | some d, some lim =>
+      let k := zkeysOf (st.engKeys.getD st.eng.newGames defaultKeys)
+      let G := chessGame st.mg k
+      match findBestMove G 100000 st.eng.board d lim st.eng.search with
+      | (some (score, mv), s) =>
+        let repx := s.rep.foldl (· ^^^ ·) (0 : UInt64)
+        ({ st with eng := { st.eng with search := s } }, both s!"{score} {optMvText mv} nodes={s.nodes} rep={s.rep.length}:{repx.toNat}" "?")
+      | (none, s) => ({ st with eng := { st.eng with search := s } }, both "?" "?")
+    | _, _ => (st, modelOnly "bad-op")
+  | ["eng.rep"] =>
+    let repx := st.eng.search.rep.foldl (· ^^^ ·) (0 : UInt64)
+    (st, both s!"{st.eng.search.rep.length}:{repx.toNat}" "?")
+  | ["eng.repsame", before, after] =>
+    -- C06: the engine's record of the game history after a search cut off by the clock is exactly what it was before
+    (st, both "ok" (if before == after then "ok" else s!"GAME-HISTORY-RECORD-CHANGED-BY-A-CUT-OFF-SEARCH before={before} after={after}"))
   | ["eng.deeper"] =>
     -- cumulative count of probes answered from a record DEEPER than requested, on the engine's own searcher (tie)
     (st, both (toString st.eng.search.deeperHits) "?")
